@@ -3,6 +3,8 @@
    Liveness = deadlock freedom + a strictly decreasing variant; fairness of the scheduler (an
    enabled step is eventually taken, no infinite run of spurious wake-ups) is assumed. *)
 From Coq Require Import List ZArith Bool Lia.
+From Tulz Require Import RaceModel AtomicSections.
+From TulzGen Require Import Accesses.
 From Tulz Require Import Common PoolModel PoolInv PoolProofsB.
 Import ListNotations.
 
@@ -60,3 +62,16 @@ Example C08_nonvacuous :
   let s := prun true (pinit 2 [OStart; OStop]) [LO None; LO None; LO None; LW 0; LW 0; LW 0; LW 0; LW 0; LO None; LW 0] in
   (in_stop s, map wst_z (ws s), can_step true s, pmeasure s) = (true, [3%Z], true, 4 + 2 + 1 + 5)%Z.
 Proof. vm_compute. reflexivity. Qed.
+
+(* A premise of the micro-step model (a worker's look at the queue and its removal of the front task are one step, as
+   are the owner's push and clear), checked on the access rows the translator extracted from the CURRENT source
+   (TulzGen.Accesses, regenerated on every run): every access to the task queue is made holding m_queueMutex, hence
+   no two threads ever touch the queue at the same time (AtomicSections.v). *)
+Theorem C08_queue_sections : forall n os t1 t2 a1 a2,
+  t1 <> t2 -> In a1 extracted_accesses -> In a2 extracted_accesses ->
+  RaceModel.a_comp a1 = pool_component -> RaceModel.a_comp a2 = pool_component ->
+  RaceModel.a_field a1 = pool_queue -> RaceModel.a_field a2 = pool_queue ->
+  RaceModel.can_perform (RaceModel.lrun (RaceModel.linit n) os) t1 a1 ->
+  RaceModel.can_perform (RaceModel.lrun (RaceModel.linit n) os) t2 a2 -> False.
+Proof. apply (AtomicSections.field_exclusive pool_component pool_queue pool_queue_mutex). vm_compute. reflexivity. Qed.
+Print Assumptions C08_queue_sections.
